@@ -589,7 +589,11 @@ impl Template {
                 }
                 (Width, FirstStyle | Literal) if !buf.is_empty() => {
                     if let Some(TemplatePart::Placeholder { width, .. }) = parts.last_mut() {
-                        *width = Some(buf.parse().unwrap());
+                        // The width does not fit into a `u16`
+                        *width = Some(
+                            buf.parse()
+                                .map_err(|_| TemplateError { next: c, state })?,
+                        );
                         buf.clear();
                     }
                 }
